@@ -23,7 +23,7 @@ def sh(cmd, **kw):
 
 
 assert sh("git -C /repo status --porcelain --untracked-files=no")[1].strip() == "", "repo not clean"
-env = "PYTHONPATH=/repo"
+env = "OMP_NUM_THREADS=2 PYTHONPATH=/repo"
 rc_clean, out_clean = sh("cd /repo && %s /venv/bin/python -W ignore %s/demo_mutant.py" % (env, dst))
 rc, out = sh("git -C /repo apply %s/patch.diff" % dst)
 assert rc == 0, out
